@@ -178,6 +178,14 @@ fn queries(g: &mut G, kv: &Kv) {
         g.emit(format!("stream subseq:61 gt:{} le:{}", hex(&a), hex(&b)));
     }
     g.emit("streamst str:6162 - -".into());
+    // a user automaton overriding `accept_eof` (counts 0x61 mod 3; matches in state 2; the hook moves
+    // state 1 to state 2 at the end of a non-empty key) — theorem C10_stream_eof
+    g.emit("streamst dfe:3:0:61:011220:001:111:000:-2- - -".into());
+    {
+        let a = g.rng.pick(&ps).clone();
+        let b = g.rng.pick(&ps).clone();
+        g.emit(format!("streamst dfe:3:0:61:011220:001:111:000:-2- ge:{} le:{}", hex(&a), hex(&b)));
+    }
     g.emit("verify".into());
 }
 
